@@ -153,29 +153,35 @@ def run(F, R, tier):
             p = B.path([auth[0][0]], failed_logs, cut_edges=ne_ok)
             R.check(p is None, "C11.R2", "C11.R2:%s:record-only-on-denial" % HNR, "-",
                     "authorize-failed records after authorize() are reachable only through a result != Ok edge")
-        # R3: uses of `result`
+        # R3: an audited denial takes the same forwarding path as an allowed request
         if auth:
-            res_local = auth[0][3]["dest"]["l"]
-            users = []
-            frontier, seen = [res_local], {res_local}
-            while frontier:
-                l = frontier.pop()
-                for u in B.uses_of(l):
-                    if u[0] == "assign" and u[2]["rv"]["k"] in ("ref", "use"):
-                        tl = u[2]["lhs"]["l"]
-                        if tl not in seen:
-                            seen.add(tl)
-                            frontier.append(tl)
-                    elif u[0] == "callarg":
-                        users.append(q.base_name(u[3] or u[2]))
-                    elif u[0] == "switch":
-                        users.append("switch")
-                    else:
-                        users.append(u[0])
-            bad = [u for u in users if not (q.ends(u, "eq", "ne") or u == "switch")]
-            R.check(not bad, "C11.R3", "C11.R3:%s:result-only-compared" % HNR, q.where(B, auth[0][0]),
-                    "the authorize() result is only compared (%s); after the Forbidden test audit and allowed requests share one path" % sorted(set(users)),
-                    "the authorize() result is also used by %s" % bad)
+            subj = q.from_call("proxy_authorizer::authorize")
+            _, not_ok, _ = q.enum_value_edges(B, F, subj, ARES, "Ok")
+            _, not_audit, _ = q.enum_value_edges(B, F, subj, ARES, "OkWithAudit")
+            r_ok = B.reach([auth[0][0]], cut_edges=not_ok)
+            r_au = B.reach([auth[0][0]], cut_edges=not_audit)
+            s_ok = [b for b in sends if b in r_ok]
+            R.check(bool(s_ok) and all(b in r_au for b in s_ok), "C11.R3", "C11.R3:%s:audit-reaches-forwarding" % HNR, q.where(B, auth[0][0]),
+                    "every forwarding site an allowed request (result == Ok) can reach is reachable for an audited denial (result == OkWithAudit)",
+                    "forwarding sites reachable with Ok but not with OkWithAudit: lines %s" % [B.line(b) for b in s_ok if b not in r_au])
+            TOUCH = ("headers_mut", "uri_mut", "method_mut", "body_mut", "version_mut", "extensions_mut", "into_parts", "into_body",
+                     "send_request", "handle_request_with_signature", "empty_response", "Response::new", "Builder::body")
+            for nm, excl in (("audit-only", r_au - r_ok), ("allowed-only", r_ok - r_au)):
+                bad = []
+                for b in sorted(excl):
+                    if B.blocks[b]["cleanup"]:
+                        continue
+                    tk = B.blocks[b]["term"]
+                    if tk["k"] == "return":
+                        bad.append("return at line %s" % B.line(b))
+                    elif tk["k"] == "call":
+                        w_, r_ = mir.callee_of(tk)
+                        if w_ != mir.POLL and q.ends(r_ or w_ or "", *TOUCH):
+                            bad.append("%s at line %s" % (q.base_name(r_ or w_), B.line(b)))
+                R.check(not bad, "C11.R3", "C11.R3:%s:%s-region-only-records" % (HNR, nm), q.where(B, auth[0][0]),
+                        "blocks reachable only for %s requests (%d) neither return, build a response nor touch or send the request: "
+                        "after the decision both kinds share one forwarding path" % (nm.split("-")[0], len(excl)),
+                        "the %s region does more than record: %s" % (nm, bad))
 
     lcs = R.anchor(LCS, "C11.R2")
     if lcs:
